@@ -208,6 +208,20 @@ func (ex *Exec) evalCallWithArgs2(st *State, call *ast.CallExpr, preArgs []*Val,
 	return ex.callFunc(st, fn, recv, args, call, sc, resT)
 }
 
+// isRefineryRef: does the function reference name code of the refinery module?
+func isRefineryRef(ref string) bool {
+	// refinery packages are referenced by their short (module-relative) path: no dot in the first path element
+	first := ref
+	if k := strings.IndexAny(ref, "/."); k >= 0 {
+		first = ref[:k]
+	}
+	switch first {
+	case "agent", "app", "cmd", "collect", "config", "generics", "internal", "logger", "metrics", "pubsub", "route", "sample", "service", "sharder", "transmit", "types", "tools", "test":
+		return true
+	}
+	return false
+}
+
 func posOf(call *ast.CallExpr) token.Pos {
 	if call == nil {
 		return token.NoPos
@@ -364,10 +378,41 @@ func (ex *Exec) callFunc(st *State, fn *types.Func, recv *Val, args []*Val, call
 
 func (ex *Exec) unknownCall(st *State, ref string, recv *Val, args []*Val, resT types.Type, pos token.Pos, fv *Val) []*Val {
 	ex.unknown[ref]++
+	if fv != nil && ex.contract != nil && ex.contract.LocalCalls {
+		// a call through a function value: by the contract's `localcalls` attribute it
+		// only affects the objects handed to it
+		ex.assumption("calls through function values in " + ex.contract.Func + " only modify the objects passed to them (attribute localcalls)")
+		for _, a := range args {
+			if a == nil || a.T == nil || a.Loc != nil {
+				continue
+			}
+			if pt, ok := a.T.Underlying().(*types.Pointer); ok {
+				if _, isStruct := pt.Elem().Underlying().(*types.Struct); isStruct {
+					sh := ex.eng.sh.shapeOf(pt.Elem())
+					if !sh.IsLeaf() {
+						l := &Loc{Heap: true, TKey: typeKey(pt.Elem()), Ref: a.S, Sh: sh, T: pt.Elem()}
+						ex.writeLoc(st, l, ex.freshValSh(sh, "callee"))
+					}
+				}
+			}
+		}
+		if resT == nil && fv.T != nil {
+			if sig, ok := fv.T.Underlying().(*types.Signature); ok {
+				resT = sig.Results()
+			}
+		}
+		return ex.freshResults(nil, resT, "res")
+	}
 	if ex.discovery == 0 {
 		ex.note("unmodelled call %s at %s: result fresh, heap havocked", ref, ex.pos(pos))
 	}
+	external := fv == nil && !strings.Contains(ref, " ") && ex.eng.findFunc(ref) == nil && !isRefineryRef(ref)
+	if external {
+		ex.keepGhosts = true
+		ex.assumption("library code (" + strings.SplitN(ref, ".", 2)[0] + "…) does not call back into refinery functions that carry ghost effect logs")
+	}
 	ex.havocAllHeap(st, ref)
+	ex.keepGhosts = false
 	// locals whose address was passed are havocked too
 	for _, a := range append([]*Val{recv}, args...) {
 		if a != nil && a.Loc != nil && !a.Loc.Heap {
@@ -616,6 +661,10 @@ func (ex *Exec) applyContract(st *State, c *Contract, fn *types.Func, recv *Val,
 	// havoc the frame
 	if c.Havoc {
 		ex.havocAllHeap(st, c.Func)
+	} else if c.HavocHeap {
+		ex.keepGhosts = true
+		ex.havocAllHeap(st, c.Func)
+		ex.keepGhosts = false
 	}
 	for _, cl := range c.Clauses {
 		if cl.Kind != "modifies" {
